@@ -65,6 +65,7 @@ impl PriorityReceiver {
 
 		if let Some(timer) = stop_timer.clone() {
 			select! {
+				biased;
 				() = timer.to_sleep() => {
 					*stop_timer = None;
 					Some(timer.to_control())
@@ -74,6 +75,7 @@ impl PriorityReceiver {
 			}
 		} else {
 			select! {
+				biased;
 				Some(message) = self.urgent.recv() => Some(message),
 				Some(message) = self.high.recv() => Some(message),
 				Some(message) = self.normal.recv() => Some(message),
